@@ -25,19 +25,18 @@ RBody(i) ==       \* a criterion is present with probability 1/3 (class 1/2, tru
 
 InjSeqs(n) == {s \in [1..n -> Names] : \A i, j \in 1..n : i # j => s[i] # s[j]}
 
-RListing(k) == LET n  == << 1, 2, 2, 3, 3, 3 >>[Pick(1..6)]
-                   ns == Pick(InjSeqs(IF n > MaxRules THEN MaxRules ELSE n))
-               IN  [i \in 1..Len(ns) |-> MkRule(ns[i], RBody(i))]
+(* A random draw that is used more than once is bound by a set comprehension over a singleton: TLC re-evaluates  *)
+(* a LET definition containing RandomElement at every reference.                                                *)
+The(S) == CHOOSE x \in S : TRUE
 
-RXr(svcs) == [i \in 1..Len(svcs) |-> LET s == Pick(StatesOf(svcs[i]))
-                                     IN  [svc |-> svcs[i].name, ok |-> s.ok, ref |-> s.ref, sent |-> s.sent]]
+RListing(k) == The({ [i \in 1..Len(ns) |-> MkRule(ns[i], RBody(i))] :
+                     ns \in { Pick(InjSeqs(The({ IF n > MaxRules THEN MaxRules ELSE n : n \in { << 1, 2, 2, 3, 3, 3 >>[Pick(1..6)] } }))) } })
 
 RClient(svcs, j) ==
-    LET xr  == RXr(svcs)
-        can == \E i \in 1..Len(svcs) : svcs[i].type # "dronecheck" /\ xr[i].ok
-    IN  [addr |-> Pick(CAddr), host |-> Pick(CHost), ident |-> Pick(CIdent), user |-> Pick(CUser),
-         acct |-> IF can /\ Pick(1..4) # 1 THEN Pick(CAcct \ {<< >>}) ELSE << >>,
-         xr |-> xr]
+    The({ [addr |-> Pick(CAddr), host |-> Pick(CHost), ident |-> Pick(CIdent), user |-> Pick(CUser),
+           acct |-> IF (\E i \in 1..Len(svcs) : svcs[i].type # "dronecheck" /\ xr[i].ok) /\ Pick(1..4) # 1
+                    THEN Pick(CAcct \ {<< >>}) ELSE << >>,
+           xr |-> xr] : xr \in { Pick({x \in XrSet(svcs) : \A i \in 1..Len(svcs) : (x[i].ok /\ x[i].ref) => Len(svcs) >= 2}) } })
 
 GenInit == /\ gk \in 1..GenN
            /\ gsv = SvcChoices[Pick(1..Len(SvcChoices))]
@@ -62,6 +61,7 @@ GenOk == LET v == GVec
                        /\ o.cls = w.cls
                        /\ o.u = IF w.trust THEN << StripTilde(gc[j].user) >> ELSE << >>
 
-GenEmit == PrintT("@@E" \o ToJson([svcs |-> gsv, rules |-> gl, clis |-> gc, want |-> GOut]))
+GenEmit == PrintT("@@E" \o ToJson([svcs |-> gsv, rules |-> gl, clis |-> gc, want |-> GOut,
+                                    nm |-> [j \in 1..Len(gc) |-> Cardinality(Matching(Range(gl), gc[j]))]]))
 
 =============================================================================
